@@ -19,6 +19,7 @@ import (
 	"fmt"
 	"os"
 	"strings"
+	"sync"
 	"sync/atomic"
 	"time"
 	"unicode/utf8"
@@ -477,8 +478,24 @@ func parseTrace(text string) (body []ev) {
 
 // ---------------------------------------------------------------------------------------------
 
-var current atomic.Int64
-var started atomic.Int64
+type slot struct {
+	id      atomic.Int64
+	started atomic.Int64
+}
+
+type job struct {
+	c    tcase
+	text string
+}
+
+type result struct {
+	lexHeads  []ev
+	lexKeys   []string
+	lexBodies [][]ev
+	parseHead ev
+	parseKey  string
+	parseBody []ev
+}
 
 func main() {
 	files := flag.String("files", "", "JSON list of base files for mutation cases")
@@ -489,6 +506,7 @@ func main() {
 	bytesMax := flag.Int("bytes-max", 8, "inputs up to this length carry their bytes in the trace")
 	hexdump := flag.Bool("hexdump", false, "print the concrete bytes of each case instead of running it")
 	hang := flag.Duration("hang", 60*time.Second, "per-case watchdog")
+	workers := flag.Int("workers", 4, "cases run concurrently")
 	flag.Parse()
 	loadBases(*files)
 
@@ -506,16 +524,77 @@ func main() {
 	}
 
 	lex, parse := newSink(*lexOut), newSink(*parseOut)
+	slots := make([]slot, *workers)
 	go func() {
 		for {
 			time.Sleep(time.Second)
-			if id := current.Load(); id != 0 && time.Since(time.Unix(0, started.Load())) > *hang {
-				lex.close()
-				parse.close()
-				fmt.Fprintf(os.Stderr, "HANG case=%d\n", id)
-				os.Exit(3)
+			for w := range slots {
+				if id := slots[w].id.Load(); id != 0 && time.Since(time.Unix(0, slots[w].started.Load())) > *hang {
+					fmt.Fprintf(os.Stderr, "HANG case=%d\n", id)
+					os.Exit(3)
+				}
 			}
 		}
+	}()
+
+	jobs := make(chan job, 256)
+	results := make(chan result, 256)
+	var wg sync.WaitGroup
+	for w := 0; w < *workers; w++ {
+		wg.Add(1)
+		go func(sl *slot) {
+			defer wg.Done()
+			for j := range jobs {
+				c, text := j.c, j.text
+				valid := utf8.ValidString(text)
+				nulp := (len(text) >= 1 && text[0] == 0) || (len(text) >= 2 && text[1] == 0)
+				sl.started.Store(time.Now().UnixNano())
+				sl.id.Store(int64(c.ID))
+				withBytes := len(text) <= *bytesMax
+				feat := fmt.Sprintf("%d/%v/%v", len(text), valid, nulp)
+				var res result
+				if lex != nil {
+					for _, cfg := range []string{"std", "nl"} {
+						head := ev{"e": "Begin", "id": c.ID, "cfg": cfg, "len": len(text), "utf8": valid, "nulp": nulp, "hasbytes": withBytes}
+						bs := []int{}
+						if withBytes {
+							for i := 0; i < len(text); i++ {
+								bs = append(bs, int(text[i]))
+							}
+						}
+						head["bytes"] = bs
+						// the duplicate key leaves the configuration out: an "nl" run whose observation is
+						// identical to the "std" run of the same input adds nothing
+						key := feat
+						if withBytes {
+							key += text
+						}
+						res.lexHeads = append(res.lexHeads, head)
+						res.lexKeys = append(res.lexKeys, key)
+						res.lexBodies = append(res.lexBodies, lexTrace(text, cfg, withBytes))
+					}
+				}
+				if parse != nil {
+					res.parseHead = ev{"e": "Call", "id": c.ID, "len": len(text)}
+					res.parseKey = fmt.Sprint(len(text))
+					res.parseBody = parseTrace(text)
+				}
+				sl.id.Store(0)
+				results <- res
+			}
+		}(&slots[w])
+	}
+	done := make(chan struct{})
+	go func() {
+		for res := range results {
+			for k := range res.lexHeads {
+				lex.write(res.lexHeads[k], res.lexKeys[k], res.lexBodies[k], *dedupe)
+			}
+			if res.parseHead != nil {
+				parse.write(res.parseHead, res.parseKey, res.parseBody, *dedupe)
+			}
+		}
+		close(done)
 	}()
 
 	in := bufio.NewScanner(os.Stdin)
@@ -555,33 +634,12 @@ func main() {
 		if c.Kind == "mut" && c.Arg >= 1000 {
 			fmt.Fprintf(os.Stderr, "DEEP case=%d\n", c.ID)
 		}
-		started.Store(time.Now().UnixNano())
-		current.Store(int64(c.ID))
-		withBytes := len(text) <= *bytesMax
-		feat := fmt.Sprintf("%d/%v/%v", len(text), valid, nulp)
-		if lex != nil {
-			for _, cfg := range []string{"std", "nl"} {
-				head := ev{"e": "Begin", "id": c.ID, "cfg": cfg, "len": len(text), "utf8": valid, "nulp": nulp, "hasbytes": withBytes}
-				bs := []int{}
-				if withBytes {
-					for i := 0; i < len(text); i++ {
-						bs = append(bs, int(text[i]))
-					}
-				}
-				head["bytes"] = bs
-				key := feat + cfg
-				if withBytes {
-					key += text
-				}
-				lex.write(head, key, lexTrace(text, cfg, withBytes), *dedupe)
-			}
-		}
-		if parse != nil {
-			head := ev{"e": "Call", "id": c.ID, "len": len(text)}
-			parse.write(head, fmt.Sprint(len(text)), parseTrace(text), *dedupe)
-		}
-		current.Store(0)
+		jobs <- job{c, text}
 	}
+	close(jobs)
+	wg.Wait()
+	close(results)
+	<-done
 	lex.close()
 	parse.close()
 	st := map[string]any{"cases": ncases}
